@@ -185,13 +185,13 @@ Proof.
 Qed.
 
 (* operand ranges and the absence of locals, instruction by instruction *)
-Lemma jop_step_operand_ok nc gc x a a' code :
+Lemma jop_step_operand_ok nc gc x a a' :
   jop_step nc gc x a = Some a' ->
-  operand_ok {| bcode := code; nconsts := nc; gcount := gc; lcount := 0 |} (instr_of x) = true.
+  chk_nl nc gc (instr_of x) = true.
 Proof.
   intro H. unfold jop_step in H. destruct (snd x <? 65536) eqn:EA; [|discriminate]. cbn [negb] in H.
   destruct x as [o arg]. cbn [fst snd] in *.
-  unfold operand_ok, instr_of, arg0. cbn [iop iargs fst snd nconsts gcount lcount]. rewrite opc_of_N_of_opc.
+  unfold chk_nl, instr_of, arg0. cbn [iop iargs fst snd]. rewrite opc_of_N_of_opc.
   destruct o; try reflexivity; destruct a as [k|k]; try discriminate H;
     unfold sop_ok in H; cbn [is_sl negb has_operand andb simple_effect] in H; try discriminate H;
     rewrite EA in H; cbn [negb] in H;
@@ -266,29 +266,27 @@ Proof.
 Qed.
 
 (* ---------- the theorem: the two premises imply WF ---------- *)
-Theorem ops_WF : forall nc gc ops,
+Theorem ops_WFg : forall nc gc ops,
   jruns nc gc ops (AH 0) = Some (AH 0) ->
   jtargets nc gc (jannot nc gc ops 0 (AH 0)) (total_len ops) (AH 0) ops (AH 0) ->
-  WF {| bcode := encode ops; nconsts := nc; gcount := gc; lcount := 0 |}.
+  WFg (chk_nl nc gc) 0 (encode ops).
 Proof.
   intros nc gc ops HR HT.
-  set (bc := {| bcode := encode ops; nconsts := nc; gcount := gc; lcount := 0 |}).
   set (A := jannot nc gc ops 0 (AH 0)).
   destruct (jdecode nc gc ops 0 (AH 0) (AH 0) (List.length (encode ops)) HR (le_n _)) as [HD HLEN].
-  assert (HCL : codelen bc = total_len ops) by (unfold codelen, bc; simpl; exact HLEN).
   exists (instrs_of ops 0), (fun pc => alookupA pc A).
   split; [exact HD|]. split; [|split].
   - intros pc i HI.
     destruct (jinstr_annot nc gc A (total_len ops) ops 0 (AH 0) (AH 0) HR HT pc i HI) as (x & a & a' & -> & HS & HQ).
-    split; [apply (jop_step_operand_ok _ _ _ _ _ _ HS)|].
+    split; [apply (jop_step_operand_ok _ _ _ _ _ HS)|].
     intros T HJ. destruct (jump_target_req _ _ _ _ _ _ HS HJ) as (ra & HQ'). rewrite HQ' in HQ.
-    destruct HQ as [[E1 _]|HQ]; [left; rewrite HCL; exact E1|right].
+    destruct HQ as [[E1 _]|HQ]; [left; rewrite HLEN; exact E1|right].
     apply (jannot_pcs _ _ _ _ _ _ _ HQ).
   - intro NE. destruct ops as [|x t]; [simpl in NE; congruence|]. unfold A. simpl. reflexivity.
-  - intros pc a Ha. cbn [lcount bc]. apply alookupA_some in Ha.
+  - intros pc a Ha. apply alookupA_some in Ha.
     destruct (jflow nc gc A (total_len ops) (AH 0) ops 0 (AH 0) HR HT pc a Ha) as (HB & x & a' & HI & HS & HN & HQ).
     exists (instr_of x), (jsuccs x a a' pc). split; [exact HI|]. split; [apply (jop_step_xfer _ _ _ _ _ pc HS)|].
-    intros t b Hin. rewrite HCL.
+    intros t b Hin. rewrite HLEN.
     assert (NEXT : (pc + ilen_of x = total_len ops /\ a' = AH 0) \/ (pc + ilen_of x < total_len ops /\ alookupA (pc + ilen_of x) A = Some a')).
     { destruct HN as [[HE HK]|HN]; [left; split; [lia|exact HK]|right].
       destruct (jflow nc gc A (total_len ops) (AH 0) ops 0 (AH 0) HR HT _ _ HN) as (HB' & _).
@@ -303,4 +301,20 @@ Proof.
       { clear - Hin. destruct (fst x); simpl in Hin; tauto. }
       destruct Hcases as [Eq|Eq]; inversion Eq; subst; [apply NEXT|apply (TGT _ _ eq_refl)].
     + simpl in Hin. destruct Hin as [Hin|[]]. inversion Hin; subst. apply NEXT.
+Qed.
+
+(* with the operands of the local accesses below lc: WF with LocalCount = lc
+   (the heights of the linear pass are counted from LocalCount) *)
+Theorem ops_WF : forall nc gc lc ops,
+  jruns nc gc ops (AH 0) = Some (AH 0) ->
+  jtargets nc gc (jannot nc gc ops 0 (AH 0)) (total_len ops) (AH 0) ops (AH 0) ->
+  Forall (lopk lc) ops ->
+  WF {| bcode := encode ops; nconsts := nc; gcount := gc; lcount := lc |}.
+Proof.
+  intros nc gc lc ops HR HT HL. apply WFg_WF; [apply ops_WFg; assumption|].
+  intros instrs pc i HD HI.
+  destruct (jdecode nc gc ops 0 (AH 0) (AH 0) (List.length (encode ops)) HR (le_n _)) as [HD' _].
+  unfold decode_all in HD. assert (instrs = instrs_of ops 0) by congruence. subst instrs.
+  destruct (instrs_of_in _ _ _ _ HI) as (x & Hx & ->). apply lopk_instr.
+  rewrite Forall_forall in HL. apply HL. exact Hx.
 Qed.
